@@ -618,7 +618,7 @@ def replay(ctx, payload):
     try:
         px = pool.fresh()
         spec = sessdrv.default_spec(bytes.fromhex(w['stream_hex']), w.get('chunk_sizes'),
-                                    cert=(tuple(w['cert'][0]), w['cert'][1]) if w.get('cert') else None,
+                                    cert=((tuple(w['cert'][0]), w['cert'][1]) + ((w['cert'][2],) if len(w['cert']) > 2 else ())) if w.get('cert') else None,
                                     tls=w.get('tls', True), plugins=w.get('plugins', []))
         obs, _ = sessdrv.run_spec(px, spec)
         oracle_connection(ctx, spec, obs, px.calls, w.get('meta'))
